@@ -1283,7 +1283,8 @@ void eval_instruction (const char *p) {
               if (sp->type == T_STRING)
                 {
                   SVALUE_STRING_JOIN (lval, sp, "f_add_eq: 1");
-                  opt_trace (TT_EVAL|3, "f_add_eq: \"%s\"", sp->u.string);
+                  /* the right operand has been freed by the join: trace the result */
+                  opt_trace (TT_EVAL|3, "f_add_eq: \"%s\"", lval->u.string);
                 }
               else if (sp->type == T_NUMBER)
                 {
